@@ -4,60 +4,92 @@
    Reading: `run g fails s0 ops` is the trace of a history; an entry (s1, a, Some r) is a
    transfer_model call made in state s1 that returned r.  `out_ok fails s1 r` says: r is the
    compile of s1's CURRENT sources (the *.mo files below the model folder and the library
-   folders), CURRENT options (up to `verbose`) and CURRENT version -- or the call raised and
-   compiling the current sources raises.  `g` is the table regenerated from api.py on every run
-   (comparison operator of the mtime check, either > or >=; exclude_options; presence of the
-   version check); `cfg_ok g` is evaluated on it in run/C20/Tie_C20.v.  `fails` (which compiles
-   raise) and the compiler itself are arbitrary. *)
+   folders), CURRENT options (up to `verbose`) and CURRENT version, and if r's functions are the
+   code-generated shared libraries on disk they were built for the CURRENT os.name -- or the call
+   raised and compiling the current sources raises.  `g` is the table regenerated from api.py on
+   every run (comparison operator of the mtime check, > or >=; exclude_options; presence of the
+   version check); `cfg_ok g` is evaluated on it in the run's Tie_C20.v.  `fails` (which compiles
+   raise) and the compiler itself are arbitrary.  Both routes are covered: cache (pickled
+   functions) and codegen (four shared libraries + a cache file that points to them, written
+   together by save_model; library_os check).
+
+   Hypotheses of the positive theorems, exactly (legal_op / legal_op_gt):
+   - every rewrite/addition of a .mo file gets an mtime strictly later than the cache file's
+     (C20_fresh, the property's grant) or, more generally, one that the coded comparison calls
+     newer (C20_fresh_operator: "not earlier" suffices under >=).  A write with an mtime earlier
+     than the cache file's (clock going backwards) is an explicit non-goal;
+   - library_folders keeps its initial value (known finding, C20_fresh_refuted);
+   - mtime_check stays on (documented opt-out);
+   - no .mo file is deleted or renamed in the model folder or a library folder in use; deletions
+     and renames elsewhere are allowed.  Deletion is outside the property's letter ("edits ...
+     additions ... option changes ... version changes"); C20_delete_refuted records what happens. *)
 From Coq Require Import ZArith List Bool.
 From PV Require Import Model.C20_cache Proofs.C20_cache.
 Import ListNotations.
 
-(* For EVERY history of edits / additions (each with an mtime strictly later than the cache
-   file's, as the property grants), option changes, version changes and transfer_model calls,
-   of any length, from any initial source tree without a cache file: every transfer_model call
-   returns the compile of the current state -- PROVIDED library_folders keeps its initial value
-   (known finding, see C20_fresh_refuted) and the mtime_check opt-out is not used. *)
-Theorem C20_fresh (g : cfg) (fails : cres -> bool) (f0 : fs) (o0 : opts) (v0 : nat) (ops : list op) :
+Theorem C20_fresh (g : cfg) (fails : cres -> bool) (f0 : fs) (o0 : opts) (v0 n0 : nat)
+        (l0 : option (cres * nat)) (ops : list op) :
   cfg_ok g -> flag K_mtime_check o0 = true ->
-  legal g fails (Some (get K_library_folders o0)) (State f0 o0 v0 None) ops ->
-  forall s1 a r, In (s1, a, Some r) (run g fails (State f0 o0 v0 None) ops) -> out_ok fails s1 r.
-Proof. exact (fresh g fails f0 o0 v0 ops). Qed.
+  legal_gt g fails (Some (get K_library_folders o0)) (State f0 o0 v0 n0 l0 None) ops ->
+  forall s1 a r, In (s1, a, Some r) (run g fails (State f0 o0 v0 n0 l0 None) ops) -> out_ok fails s1 r.
+Proof. exact (fresh g fails f0 o0 v0 n0 l0 ops). Qed.
 Print Assumptions C20_fresh.
 
-(* the invariant behind it ("a cache that passes load_ok has snapshot = current sources, equal
-   options, equal version"; stated on the part that does not depend on load_ok: the tree differs
-   from the snapshot only by files whose mtime is later than the cache's) holds in every
-   reachable state, from any state that satisfies it *)
+(* the same for writes that are "newer" in the sense of the regenerated operator *)
+Theorem C20_fresh_operator (g : cfg) (fails : cres -> bool) (f0 : fs) (o0 : opts) (v0 n0 : nat)
+        (l0 : option (cres * nat)) (ops : list op) :
+  cfg_ok g -> flag K_mtime_check o0 = true ->
+  legal g fails (Some (get K_library_folders o0)) (State f0 o0 v0 n0 l0 None) ops ->
+  forall s1 a r, In (s1, a, Some r) (run g fails (State f0 o0 v0 n0 l0 None) ops) -> out_ok fails s1 r.
+Proof. exact (fresh_operator g fails f0 o0 v0 n0 l0 ops). Qed.
+Print Assumptions C20_fresh_operator.
+
+(* the invariant behind it (restricted to the folders in use the tree differs from the snapshot
+   only by files newer than the cache file; the cached model is the compile of the snapshot; a
+   codegen cache file sits next to the libraries it was written with) holds in every reachable
+   state, from any state that satisfies it *)
 Theorem C20_invariant (g : cfg) (fails : cres -> bool) (L : val) (s : state) (ops : list op) :
-  Inv L s -> legal g fails (Some L) s ops -> Inv L (final g fails s ops).
+  Inv g L s -> legal g fails (Some L) s ops -> Inv g L (final g fails s ops).
 Proof. exact (inv_reachable g fails L s ops). Qed.
 Print Assumptions C20_invariant.
 
-(* The full statement (library_folders allowed to change) is FALSE of the faithful model, as it
-   is of api.py: with today's table (>, exclude_options = [library_folders], version check
-   present) the history [Transfer; SetOptions library_folders := [2]; Transfer] is legal in every
-   other respect and its second call is served from the cache with sources that are not the
-   current ones. *)
-Theorem C20_fresh_refuted :
-  exists s1 now r,
-    legal g_now (fun _ => false) None (State f_two (o_lib [1]) 1 None) h_lib /\
-    In (s1, Transfer now, Some (Served true r)) (run g_now (fun _ => false) (State f_two (o_lib [1]) 1 None) h_lib) /\
-    fst (fst r) <> fst (fst (ideal s1)).
+(* The statement with library_folders allowed to change is FALSE of the faithful model, as it is
+   of api.py: [Transfer; SetOptions library_folders := [2]; Transfer] is legal in every other
+   respect and its second call is served from the cache with sources that are not the current ones *)
+Theorem C20_fresh_refuted : legal g_now nofail None s_two h_lib /\ stale g_now s_two h_lib.
 Proof. exact fresh_refuted. Qed.
 Print Assumptions C20_fresh_refuted.
 
-(* non-vacuity: the hypotheses of C20_fresh hold for a concrete history with an edit, an added
-   library file, an option change, a version change and six calls (five recompiles, one load) *)
+(* deleting a library source in use / renaming a library source into the model folder: the
+   stale cache is served (the mtime walk only sees files that exist and are newer) *)
+Theorem C20_delete_refuted : stale g_now s_two h_del /\ stale g_now s_two h_ren.
+Proof. exact delete_refuted. Qed.
+Print Assumptions C20_delete_refuted.
+
+(* an edit whose mtime EQUALS the cache file's is served stale under `>` (today's operator) and is
+   a legal, hence covered, history under `>=` *)
+Theorem C20_equal_mtime_refuted :
+  stale g_now s_two h_eq /\ legal g_ge nofail (Some [1]) s_two h_eq /\ ~ legal g_now nofail (Some [1]) s_two h_eq.
+Proof. exact equal_mtime_refuted. Qed.
+Print Assumptions C20_equal_mtime_refuted.
+
+(* non-vacuity: the hypotheses of C20_fresh hold for an 18-op history (edit, added library file,
+   deletion and rename outside the folders in use, option change, version change, then codegen mode
+   with a platform change) and this is its trace *)
 Example C20_legal_example :
   cfg_ok g_now /\ flag K_mtime_check (o_lib [1]) = true /\
-  legal g_now (fun _ => false) (Some (get K_library_folders (o_lib [1]))) (State f_two (o_lib [1]) 1 None) h_ok /\
-  map (fun e => snd e) (run g_now (fun _ => false) (State f_two (o_lib [1]) 1 None) h_ok) =
-  [Some (Served false ([((0,0),1); ((1,0),2)], set K_expand_mx [1] (o_lib [1]), 1)); None;
-   Some (Served false ([((0,0),4); ((1,0),2)], set K_expand_mx [1] (o_lib [1]), 1)); None;
-   Some (Served false ([((0,0),4); ((1,0),2); ((1,1),5)], set K_expand_mx [1] (o_lib [1]), 1)); None;
-   Some (Served false ([((0,0),4); ((1,0),2); ((1,1),5)], set K_expand_mx [1] (set 9 [1] (o_lib [1])), 1)); None;
-   Some (Served false ([((0,0),4); ((1,0),2); ((1,1),5)], set K_expand_mx [1] (set 9 [1] (o_lib [1])), 2));
-   Some (Served true ([((0,0),4); ((1,0),2); ((1,1),5)], set K_expand_mx [1] (set 9 [1] (o_lib [1])), 2))].
+  legal_gt g_now nofail (Some (get K_library_folders (o_lib [1]))) s_two h_ok /\
+  filter (fun x => match x with Some _ => true | None => false end)
+         (map (fun e => snd e) (run g_now nofail s_two h_ok)) =
+  [Some (Served false ([((0,0),1); ((1,0),2)], o_a, 1) None);
+   Some (Served false ([((0,0),4); ((1,0),2)], o_a, 1) None);
+   Some (Served false (srcs4, o_a, 1) None);
+   Some (Served false (srcs4, o_b, 1) None);
+   Some (Served false (srcs4, o_b, 2) None);
+   Some (Served true (srcs4, o_b, 2) None);
+   Some (Served false (srcs4, o_cg [1], 2) None);
+   Some (Served true (srcs4, o_cg [1], 2) (Some 0));
+   Some (Served false (srcs4, o_cg [1], 2) None);
+   Some (Served true (srcs4, o_cg [1], 2) (Some 1))].
 Proof. exact legal_example. Qed.
 Print Assumptions C20_legal_example.
